@@ -1403,12 +1403,11 @@ class DiGraphLivenessSSA(DiGraphLivenessIRA):
         parent_block = self.blocks[parent]
         cur_block = self.blocks[node]
         irblock = self.ircfg.blocks[node]
-        if cur_block.infos[0].var_in == parent_block.infos[-1].var_out:
-            return
-        var_info = cur_block.infos[0].var_in.union(parent_block.infos[-1].var_out)
+        var_info = cur_block.infos[0].var_in
 
         if irblock_has_phi(irblock):
-            # Remove phi special case
+            # Remove phi special case: a phi source is live out of the
+            # parents it comes from only
             out = set()
             phi_sources = self.loc_key_to_phi_parents[irblock.loc_key]
             for var in var_info:
@@ -1417,8 +1416,18 @@ class DiGraphLivenessSSA(DiGraphLivenessIRA):
                     continue
                 if parent in phi_sources[var]:
                     out.add(var)
+                    continue
+                # Phi source of another parent: it stays live if it is also
+                # used after the phi nodes
+                phi_info = cur_block.infos[0]
+                if var in phi_info.var_out and var not in phi_info.kill:
+                    out.add(var)
             var_info = out
 
+        # Variables live out of @parent through its other sons stay live
+        var_info = var_info.union(parent_block.infos[-1].var_out)
+        if var_info == parent_block.infos[-1].var_out:
+            return
         parent_block.infos[-1].var_out = var_info
         todo.add(parent)
 
